@@ -264,6 +264,19 @@ def gen(tier, rng):
             yield ('options_corruption', 13, [o, S(norm(c[2][0])) + S(norm(c[2][1])) + S(norm(c[2][2]))])
     for c in located_cases(tier, rng):
         yield c
+    # the corruption contexts again with the entries on ONE line: the following entry starts right after the
+    # corrupted one (separated by a blank / nothing / a tab), and the whole file on one line
+    for gap, oneline in ((' ', False), ('', False), ('\t', False), (' ', True), ('', True)):
+        k = 0
+        for c in corruption_cases('quick', random.Random(13)):
+            k += 1
+            if k % (5 if tier == 'quick' else 2) == 0:
+                b, bad, a = S(norm(c[2][0])), S(norm(c[2][1])), S(norm(c[2][2]))
+                b = b.rstrip('\n') + gap
+                a = gap + a.lstrip('\n')
+                if oneline:
+                    b, bad, a = b.replace('\n', ' '), bad.replace('\n', ' '), a.replace('\n', ' ')
+                yield ('corruption_one_line', 8, [b, bad, a])
     # the corruption contexts again with CR / CR LF / mixed line ends (error lines must stay inside the entry)
     for nl in ['\r', '\r\n', '\n\r']:
         k = 0
@@ -482,11 +495,14 @@ def oracle(fn, arg, out):
         return None
     return None
 
-def f25_shape(bad):
-    return bad.rstrip().endswith('@')
+_NAME_CH = set('abcdefghijklmnopqrstuvwxyzABCDEFGHIJKLMNOPQRSTUVWXYZ0123456789@!$&*+-./:;<>?[\\]^_`|~\x7f')
+def f25_shape(bad, after=''):
+    """'@' is a NAME character: a stray '@' is glued to the type of the next entry, and the '@' of an entry that
+    directly follows (no whitespace) a corrupted entry ending inside a name is glued to that name"""
+    return bad.rstrip().endswith('@') or (bad != '' and bad[-1] in _NAME_CH and after.startswith('@'))
 
 KNOWN_SIGNATURES = {
-    'F25': lambda kind, fn, arg, detail: fn == 8 and kind == 'oracle' and f25_shape(S(arg[1])) and 'altered the entries after it' in str(detail),
+    'F25': lambda kind, fn, arg, detail: fn == 8 and kind == 'oracle' and f25_shape(S(arg[1]), S(arg[2])) and 'altered the entries after it' in str(detail),
 }
 
 def replay_known(finding):
